@@ -371,6 +371,16 @@ fn enumerated() -> Vec<CmdCase> {
             }
         }
     }
+    // the address mode as the model init code builds it (From<&ModelOptions>), all 64 inputs
+    for bgr in [false, true] {
+        for orient in Orient::ALL {
+            for rv in [false, true] {
+                for rh in [false, true] {
+                    out.push(CmdCase::AddressModeWord(super::c14::ModeCase { bgr, orient, refresh_v: rv, refresh_h: rh, via_options: true, word: vec![] }));
+                }
+            }
+        }
+    }
     for dpi in 0..6 {
         for dbi in 0..6 {
             out.push(CmdCase::PixelFormat { dpi, dbi, with_all: false });
